@@ -86,6 +86,18 @@ fn rand_record(r: &mut Rng, big: usize) -> SpanRecord {
     }
 }
 
+/// a random record whose times are realistic (unix nanoseconds of this century): the Datadog
+/// and OpenTelemetry conversions add / cast them
+pub fn rand_record_realistic(r: &mut Rng, big: bool) -> SpanRecord {
+    let mut rec = rand_record(r, if big { 2000 } else { 30 });
+    rec.begin_time_unix_ns = 1_600_000_000_000_000_000 + (r.next() % 400_000_000_000_000_000);
+    rec.duration_ns = match r.below(4) { 0 => 0, 1 => r.next() % 1000, _ => r.next() % 10_000_000_000 };
+    for e in rec.events.iter_mut() {
+        e.timestamp_unix_ns = rec.begin_time_unix_ns + r.next() % (rec.duration_ns + 1);
+    }
+    rec
+}
+
 fn plain_record(r: &mut Rng, name_len: usize) -> SpanRecord {
     SpanRecord {
         trace_id: TraceId(r.below(5) as u128 + 1),
@@ -156,7 +168,7 @@ fn fmt_props(ps: &[(Cow<'static, str>, Cow<'static, str>)]) -> String {
     s
 }
 
-fn fmt_record(r: &SpanRecord) -> String {
+pub fn fmt_record(r: &SpanRecord) -> String {
     let mut s = format!(
         "{:x} {:x} {:x} {} {} {} {} {}",
         r.trace_id.0,
